@@ -459,8 +459,8 @@ func TestC39(t *testing.T) {
 			"NewPublicKeyBz/NewPrivateKeyBz; (multi, 4 in 10) a 2-6 member multisig key of mixed algorithms (nested members in a quarter of them) with the in-order, permuted, missing, duplicated, extra, other-message, empty-slot, "+
 			"mutated-member and junk arrangements, compared with a compositional oracle (n slots and slot i verifies under member i), plus key encodings; (assemble, 1 in 10) a multisignature built through "+
 			"AddSignatureByIndex in member order and AddSignature in a drawn signing order. non-trivial = at least one arrangement/mutation that must be rejected was evaluated on a non-empty message, or an out-of-order assembly",
-		map[string]float64{"ed25519": 0.2, "secp256k1": 0.08, "multisig": 0.3, "multisig-mixed": 0.1, "multisig-nested": 0.03, "permuted": 0.15, "missing": 0.3, "duplicated": 0.15,
-			"extra": 0.3, "other-message": 0.3, "empty-message": 0.03, "assemble-out-of-order": 0.04},
+		map[string]float64{"ed25519": 0.2, "secp256k1": 0.08, "multisig": 0.2, "multisig-mixed": 0.08, "multisig-nested": 0.02, "permuted": 0.1, "missing": 0.2, "duplicated": 0.1,
+			"extra": 0.2, "other-message": 0.2, "empty-message": 0.03, "assemble-out-of-order": 0.03},
 		func(rt *rapid.T, c *harness.Case) {
 			gen.ResetCodecGlobals()
 			switch k := rapid.IntRange(0, 9).Draw(rt, "scenario"); {
